@@ -89,3 +89,170 @@ theorem groupsAux_file (es : List Err) : ∀ gs : List Group,
   | cons e r ih => intro gs h; exact ih _ (addErr_file gs gs.length e h)
 
 end Cppcheck.Html
+
+namespace Cppcheck.Html
+open List
+
+/-! ### encoders produce no markup -/
+
+def special (c : Char) : Bool := c = '<' || c = '>' || c = '"' || c = '\''
+
+/-- neither a markup character nor an ampersand -/
+def plain (c : Char) : Bool := !special c && c != '&'
+
+/-- text in which `<`, `>`, `"`, `'` do not occur and every `&` starts one of the five entities `html_escape` emits -/
+def wellEscaped : Str → Bool
+  | '&' :: 'a' :: 'm' :: 'p' :: ';' :: r => wellEscaped r
+  | '&' :: 'l' :: 't' :: ';' :: r => wellEscaped r
+  | '&' :: 'g' :: 't' :: ';' :: r => wellEscaped r
+  | '&' :: 'q' :: 'u' :: 'o' :: 't' :: ';' :: r => wellEscaped r
+  | '&' :: 'a' :: 'p' :: 'o' :: 's' :: ';' :: r => wellEscaped r
+  | c :: r => plain c && wellEscaped r
+  | [] => true
+
+theorem escape_wellEscaped (s : Str) : wellEscaped (htmlEscape s) = true := by
+  induction s with
+  | nil => rfl
+  | cons c r ih =>
+    have hstep : htmlEscape (c :: r) = escChar c ++ htmlEscape r := by simp [htmlEscape]
+    rw [hstep]
+    unfold escChar
+    split
+    · simpa [wellEscaped] using ih
+    · simpa [wellEscaped] using ih
+    · simpa [wellEscaped] using ih
+    · simpa [wellEscaped] using ih
+    · simpa [wellEscaped] using ih
+    · rename_i h1 h2 h3 h4 h5
+      simp only [List.singleton_append]
+      rw [wellEscaped.eq_def]
+      split <;> simp_all [plain, special]
+
+theorem plain_wellEscaped : ∀ s : Str, (∀ c ∈ s, plain c = true) → wellEscaped s = true := by
+  intro s
+  induction s with
+  | nil => intro _; rfl
+  | cons c r ih =>
+    intro h
+    have hc := h c (by simp)
+    have hr := ih (fun x hx => h x (by simp [hx]))
+    have hne : c ≠ '&' := by
+      intro he; subst he; simp [plain] at hc
+    rw [wellEscaped.eq_def]
+    split <;> simp_all
+
+theorem isDigit_plain (c : Char) (h : c.isDigit = true) : plain c = true := by
+  simp only [Char.isDigit, Bool.and_eq_true, decide_eq_true_eq] at h
+  simp only [plain, special, Bool.and_eq_true, Bool.not_eq_true', Bool.or_eq_false_iff, decide_eq_false_iff_not, bne_iff_ne, ne_eq]
+  refine ⟨⟨⟨⟨?_, ?_⟩, ?_⟩, ?_⟩, ?_⟩ <;> intro he <;> subst he <;> revert h <;> decide
+
+theorem natStr_plain (n : Nat) : ∀ c ∈ natStr n, plain c = true := by
+  intro c hc
+  apply isDigit_plain
+  have : natStr n = Nat.toDigits 10 n := by
+    simp [natStr]
+  rw [this] at hc
+  exact Nat.isDigit_of_mem_toDigits (by decide) (by decide) hc
+
+theorem mem_ite_append {c : Char} {b : Bool} {a v : Str} (h : c ∈ (if b = true then a ++ v else v)) :
+    c ∈ a ∨ c ∈ v := by
+  cases b <;> simp_all
+
+theorem css_plain (s : Str) : ∀ c ∈ toCssSelector s, plain c = true := by
+  intro c hc
+  have hv : ∀ c ∈ s.map (fun c => if cssOk c then c else '-'), plain c = true := by
+    intro c hc
+    simp only [List.mem_map] at hc
+    obtain ⟨a, _, rfl⟩ := hc
+    split
+    · rename_i h
+      simp only [cssOk, Bool.or_eq_true, decide_eq_true_eq, Bool.and_eq_true] at h
+      simp only [plain, special, Bool.and_eq_true, Bool.not_eq_true', Bool.or_eq_false_iff, decide_eq_false_iff_not, bne_iff_ne, ne_eq]
+      refine ⟨⟨⟨⟨?_, ?_⟩, ?_⟩, ?_⟩, ?_⟩ <;> intro hh <;> subst hh <;> revert h <;> decide
+    · decide
+  dsimp only [toCssSelector] at hc
+  rcases mem_ite_append hc with hc | hc
+  · have h3 : "cpp".toList = ['c', 'p', 'p'] := by decide
+    rw [h3] at hc
+    simp only [List.mem_cons, List.not_mem_nil, or_false] at hc
+    rcases hc with h | h | h <;> subst h <;> decide
+  · exact hv c hc
+
+end Cppcheck.Html
+
+namespace Cppcheck.Html
+open List
+
+/-! ### annotations behind a source line -/
+
+theorem replaceNl_append_nl (a x : Str) (ha : '\n' ∉ a) : replaceNl (a ++ ['\n']) x = a ++ x := by
+  have h1 : ∀ a : Str, '\n' ∉ a → a.flatMap (fun c => if c = '\n' then x else [c]) = a := by
+    intro a
+    induction a with
+    | nil => intro _; rfl
+    | cons c r ih =>
+      intro h
+      simp only [List.mem_cons, not_or] at h
+      have hc : c ≠ '\n' := fun hh => h.1 hh.symm
+      simp [List.flatMap_cons, hc, ih h.2]
+  simp [replaceNl, List.flatMap_append, h1 a ha]
+
+theorem replaceLastNl_append_nl (a x : Str) : replaceLastNl (a ++ ['\n']) x = a ++ x := by
+  simp [replaceLastNl, List.idxOf?, List.findIdx?_cons]
+
+/-- the annotation of an entry without its final newline -/
+def annotBody (p : PageErr) : Option Str := (annotPieces p).map fun bx => (render bx.2).dropLast
+
+theorem annot_render_ends_nl (p : PageErr) (b : Bool) (x : List Piece) (h : annotPieces p = some (b, x)) :
+    render x = (render x).dropLast ++ ['\n'] := by
+  have key : ∀ (pre : List Piece) (s : Str), render (pre ++ [Piece.lit (s ++ ['\n'])]) =
+      (render (pre ++ [Piece.lit (s ++ ['\n'])])).dropLast ++ ['\n'] := by
+    intro pre s
+    have : render (pre ++ [Piece.lit (s ++ ['\n'])]) = (render pre ++ s) ++ ['\n'] := by
+      simp [render, List.flatMap_append, Piece.render]
+    rw [this, List.dropLast_concat]
+  unfold annotPieces at h
+  simp only at h
+  split at h
+  · simp at h
+  · rename_i c hc
+    split at h <;> simp only [Option.some.injEq, Prod.mk.injEq] at h <;> obtain ⟨_, rfl⟩ := h
+    · exact key [L "<div class=\"verbose expandable\"><span class=\"", L c, L "\">&lt;--- ", .esc p.msg,
+        L " <span class=\"marker\">[+]</span></span><div class=\"content\">", .esc (replace012 _)] "</div></div>".toList
+    · exact key [L "<span class=\"", L c, L "\">&lt;--- ", .esc p.msg] "</span>".toList
+
+/-- when no annotation text contains a newline of its own, the loop over the entries of a line simply appends
+    their annotations, in page order, each once -/
+theorem annotateLine_concat : ∀ (ps : List PageErr) (acc : Str), '\n' ∉ acc →
+    (∀ p ∈ ps, ∀ y, annotBody p = some y → '\n' ∉ y) →
+    annotateLine (acc ++ ['\n']) ps = acc ++ (ps.filterMap annotBody).flatten ++ ['\n'] := by
+  intro ps
+  induction ps with
+  | nil => intro acc _ _; simp [annotateLine]
+  | cons p r ih =>
+    intro acc hacc h
+    have hr := fun a ha => ih a ha (fun q hq => h q (by simp [hq]))
+    cases hp : annotPieces p with
+    | none =>
+      have hb : annotBody p = none := by simp [annotBody, hp]
+      have : annotateLine (acc ++ ['\n']) (p :: r) = annotateLine (acc ++ ['\n']) r := by
+        simp [annotateLine, hp]
+      rw [this, hr acc hacc]
+      simp [List.filterMap_cons, hb]
+    | some bx =>
+      obtain ⟨b, x⟩ := bx
+      have hb : annotBody p = some (render x).dropLast := by simp [annotBody, hp]
+      have hnl := h p (by simp) _ hb
+      have hx := annot_render_ends_nl p b x hp
+      have hstep : annotateLine (acc ++ ['\n']) (p :: r) = annotateLine ((acc ++ (render x).dropLast) ++ ['\n']) r := by
+        have h1 : replaceNl (acc ++ ['\n']) (render x) = (acc ++ (render x).dropLast) ++ ['\n'] := by
+          rw [replaceNl_append_nl _ _ hacc]; conv => lhs; rw [hx]
+          simp
+        have h2 : replaceLastNl (acc ++ ['\n']) (render x) = (acc ++ (render x).dropLast) ++ ['\n'] := by
+          rw [replaceLastNl_append_nl]; conv => lhs; rw [hx]
+          simp
+        cases b <;> simp only [annotateLine, List.foldl_cons, hp, h1, h2]
+      rw [hstep, hr _ (by simp [hacc, hnl])]
+      simp [List.filterMap_cons, hb]
+
+end Cppcheck.Html
